@@ -249,7 +249,9 @@ func (w *World) build() {
 		}
 		w.reps = append(w.reps, &replica{inst: inst, skew: p.Skews[i], ro: ro})
 	}
-	if w.mode.External && w.mode.Prop == "C14" && t.Chance(1, 2) {
+	if w.mode.External && t.Chance(1, 2) {
+		// every external-storage spec: the log was switched over from the default mode, or a default-mode front end writes
+		// to the same tree - entries stored with their full chain live next to entries that refer to it by hash
 		cfg := &configpb.LogConfig{LogId: 7001, Prefix: "sim", RootsPemFile: []string{rootsFile}, PrivateKey: priv, PublicKey: pub}
 		inst, err := NewInstance(InstanceParams{Cfg: cfg, Backend: w.be, Deadline: p.Deadline})
 		if err != nil {
@@ -542,6 +544,15 @@ func (w *World) genBad() *Op {
 		{"add-pre-chain", "/ct/v1/add-pre-chain", "PUT", "", "{}", "method"},
 		{"get-entries", "/ct/v1/get-entries", "DELETE", q("start", "0", "end", "0"), "", "method"},
 		{"get-roots", "/ct/v1/get-roots", "POST", "", "", "method"},
+		// every method but the endpoint's own is a wrong one - also the ones that look harmless
+		{"get-entries", "/ct/v1/get-entries", "HEAD", q("start", "0", "end", "0"), "", "method"},
+		{"get-sth", "/ct/v1/get-sth", "HEAD", "", "", "method"},
+		{"get-proof-by-hash", "/ct/v1/get-proof-by-hash", "HEAD", q("hash", "AAAA", "tree_size", "1"), "", "method"},
+		{"get-entry-and-proof", "/ct/v1/get-entry-and-proof", "OPTIONS", q("leaf_index", "0", "tree_size", "1"), "", "method"},
+		{"get-sth-consistency", "/ct/v1/get-sth-consistency", "get", q("first", "1", "second", "2"), "", "method"},
+		{"get-roots", "/ct/v1/get-roots", "PATCH", "", "", "method"},
+		{"add-chain", "/ct/v1/add-chain", "HEAD", "", "", "method"},
+		{"add-pre-chain", "/ct/v1/add-pre-chain", "post", "", "{}", "method"},
 		{"add-chain", "/ct/v1/add-chain", "POST", "", "", "body.empty"},
 		{"add-chain", "/ct/v1/add-chain", "POST", "", "{not json", "body.json"},
 		{"add-pre-chain", "/ct/v1/add-pre-chain", "POST", "", `{"chain":[]}`, "body.emptychain"},
